@@ -1,0 +1,69 @@
+//go:build verif
+// +build verif
+
+package lorawan
+
+// Contracts for the contract-based deductive verification in /verif (tool: gov).
+// This file contains comments only; it is compiled only with -tags verif and
+// adds no code.  Syntax: see /verif/DESIGN.md §5.
+
+// ---------------------------------------------------------------------------
+// shared spec helpers (written from the LoRaWAN specification, not the code)
+// ---------------------------------------------------------------------------
+
+//@ spec be32(a) = uint32(a[0])<<24 | uint32(a[1])<<16 | uint32(a[2])<<8 | uint32(a[3])
+//@ spec beN(s) = ite(len(s) == 1, uint32(s[0]), ite(len(s) == 2, uint32(s[0])<<8 | uint32(s[1]), uint32(s[0])<<16 | uint32(s[1])<<8 | uint32(s[2])))
+//@ spec be24(a) = uint32(a[0])<<16 | uint32(a[1])<<8 | uint32(a[2])
+
+// LoRaWAN 1.1 §6.1.1 / Backend Interfaces: NetID = 3-bit type | ID
+//@ spec netid_type(n) = uint32(n[0]) >> 5
+// NwkID width in the DevAddr per NetID type
+//@ spec nwkid_w(t) = ite(t == 0, uint32(6), ite(t == 1, uint32(6), ite(t == 2, uint32(9), ite(t == 3, uint32(11), ite(t == 4, uint32(12), ite(t == 5, uint32(13), ite(t == 6, uint32(15), uint32(17))))))))
+// top t+1 bits of a DevAddr: t ones followed by a zero
+//@ spec prefix_mask(t) = ^uint32(0) << (31 - t)
+//@ spec prefix_val(t) = ^uint32(0) << (32 - t)
+//@ spec nwkid_mask(t) = ((uint32(1) << nwkid_w(t)) - 1) << (31 - t - nwkid_w(t))
+//@ spec devaddr_with_prefix(old32, n) = prefix_val(netid_type(n)) | ((be24(n) & ((uint32(1) << nwkid_w(netid_type(n))) - 1)) << (31 - netid_type(n) - nwkid_w(netid_type(n)))) | (old32 &^ (prefix_mask(netid_type(n)) | nwkid_mask(netid_type(n))))
+// number of leading one bits of the first address byte (8 = all ones: no valid type)
+//@ spec lead1(b) = ite(b & 0x80 == 0, 0, ite(b & 0x40 == 0, 1, ite(b & 0x20 == 0, 2, ite(b & 0x10 == 0, 3, ite(b & 0x08 == 0, 4, ite(b & 0x04 == 0, 5, ite(b & 0x02 == 0, 6, ite(b & 0x01 == 0, 7, 0 - 1))))))))
+
+// ---------------------------------------------------------------------------
+// C11: DevAddr / NetID algebra
+// ---------------------------------------------------------------------------
+
+//@ func (*DevAddr).SetAddrPrefix
+//@   props C11
+//@   modifies *a
+//@   ensures prefix: be32(*a) == devaddr_with_prefix(be32(old(*a)), netID)
+
+//@ func (DevAddr).NetIDType
+//@   props C11
+//@   ensures type: result == lead1(int(a[0]))
+
+//@ func (DevAddr).IsNetID
+//@   props C11
+//@   ensures member: result == (be32(a) & (prefix_mask(netid_type(netID)) | nwkid_mask(netid_type(netID))) == devaddr_with_prefix(0, netID))
+
+//@ func (DevAddr).NwkID
+//@   props C11
+//@   let t = uint32(lead1(int(a[0])))
+//@   let v = (be32(a) & nwkid_mask(t)) >> (31 - t - nwkid_w(t))
+//@   ensures none: lead1(int(a[0])) < 0 ==> result == nil
+//@   ensures len: lead1(int(a[0])) >= 0 ==> len(result) == int((nwkid_w(t) + 7) / 8)
+//@   ensures b1: lead1(int(a[0])) >= 0 && nwkid_w(t) <= 8 ==> uint32(result[0]) == v
+//@   ensures b2: lead1(int(a[0])) >= 0 && nwkid_w(t) > 8 && nwkid_w(t) <= 16 ==> uint32(result[0]) == v >> 8 && uint32(result[1]) == v & 0xff
+//@   ensures b3: lead1(int(a[0])) >= 0 && nwkid_w(t) > 16 ==> uint32(result[0]) == v >> 16 && uint32(result[1]) == (v >> 8) & 0xff && uint32(result[2]) == v & 0xff
+//@   ensures fresh: result != nil ==> fresh(result)
+
+//@ func (NetID).Type
+//@   props C11
+//@   ensures type: result == int(netid_type(n))
+
+//@ func (NetID).ID
+//@   props C11
+//@   let t = netid_type(n)
+//@   let idbits = ite(t <= 1, uint32(6), ite(t == 2, uint32(9), uint32(21)))
+//@   let id = be24(n) & ((uint32(1) << idbits) - 1)
+//@   ensures len: len(result) == int((idbits + 7) / 8)
+//@   ensures val: beN(result) == id
+//@   ensures fresh: fresh(result)
